@@ -384,4 +384,352 @@ theorem gone_run {s : State} {tx : Nat} (h : Gone s tx) (ops : List Op) : Gone (
   | nil => exact h
   | cons op rest ih => exact ih (gone_step h op)
 
+/-! ## `LockIdx`: every lock is listed under its holder in `tx_locks` (so `release` finds it) -/
+
+def LockIdx (s : State) : Prop := ∀ t i l, s.locks t i = some l → (t, i) ∈ s.txLocks l.tx
+
+theorem lockIdx_congr {s s' : State} (hl : s'.locks = s.locks) (ht : s'.txLocks = s.txLocks) (h : LockIdx s) :
+    LockIdx s' := by
+  intro t i l hx
+  rw [hl] at hx; rw [ht]; exact h t i l hx
+
+theorem lockIdx_init (a b : Nat) : LockIdx (init a b) := by
+  intro t i l h; simp [init] at h
+
+theorem lockIdx_lockAll {s : State} (h : LockIdx s) (tx t : Nat) (rows : List Nat) : LockIdx (lockAll s tx t rows) := by
+  intro t' i l hl
+  simp only [lockAll] at hl ⊢
+  split at hl
+  · rename_i hc
+    injection hl with hl; subst hl
+    simp only [↓reduceIte, List.mem_append, List.mem_map]
+    right; exact ⟨i, hc.2, by rw [hc.1]⟩
+  · have := h t' i l hl
+    split
+    · rename_i he; rw [he] at this
+      exact List.mem_append_left _ this
+    · exact this
+
+theorem release_locks_some {s : State} {tx t i : Nat} {l : Lock} (h : (release s tx).locks t i = some l) :
+    s.locks t i = some l ∧ ¬(l.tx = tx ∧ (t, i) ∈ s.txLocks tx) := by
+  simp only [release] at h
+  split at h
+  · rename_i l' hl'
+    split at h
+    · cases h
+    · rename_i hn
+      injection h with h; subst h
+      exact ⟨hl', hn⟩
+  · cases h
+
+theorem lockIdx_release {s : State} (h : LockIdx s) (tx : Nat) : LockIdx (release s tx) := by
+  intro t i l hl
+  obtain ⟨h1, h2⟩ := release_locks_some hl
+  have hm := h t i l h1
+  simp only [release]
+  split
+  · rename_i he; rw [he] at hm; exact absurd ⟨he, hm⟩ h2
+  · exact hm
+
+theorem lockIdx_foldl_release {s : State} (h : LockIdx s) (ids : List Nat) : LockIdx (ids.foldl release s) := by
+  induction ids generalizing s with
+  | nil => exact h
+  | cons i rest ih => exact ih (lockIdx_release h i)
+
+theorem lockIdx_cleanupLocks {s : State} (h : LockIdx s) : LockIdx (cleanupLocks s).1 := by
+  intro t i l hl
+  simp only [cleanupLocks] at hl ⊢
+  split at hl
+  · cases hl
+  · rename_i hne
+    have hm := h t i l hl
+    rw [List.mem_filter]
+    refine ⟨hm, ?_⟩
+    simp only [lockExpiredAt, hl] at hne
+    simp only [hl]
+    simp [hne]
+
+theorem lockIdx_commit {s : State} (h : LockIdx s) (a : Nat) : LockIdx (commit s a).1 := by
+  unfold commit
+  split
+  · exact h
+  · exact lockIdx_congr rfl rfl (lockIdx_release h a)
+
+theorem release_congr {s s' : State} (hl : s'.locks = s.locks) (ht : s'.txLocks = s.txLocks) (tx : Nat) :
+    (release s' tx).locks = (release s tx).locks ∧ (release s' tx).txLocks = (release s tx).txLocks := by
+  simp only [release, hl, ht, and_self]
+
+theorem lockIdx_rollback {s : State} (h : LockIdx s) (a : Nat) : LockIdx (rollback s a).1 := by
+  unfold rollback
+  split
+  · exact h
+  · simp only
+    have f := foldl_applyUndo_fields ((match s.txs a with | some x => x.undo | none => []).reverse) (s, 0)
+    have r := release_congr f.1 f.2.1 a
+    exact lockIdx_congr (s := release s a) r.1 r.2 (lockIdx_release h a)
+
+theorem lockIdx_txInsert {s : State} (h : LockIdx s) (a t : Nat) (v : List Int) : LockIdx (txInsert s a t v).1 := by
+  unfold txInsert
+  repeat' split
+  all_goals first
+    | exact h
+    | exact lockIdx_congr (by simp) (by simp) h
+
+theorem lockIdx_txUpdate {s : State} (h : LockIdx s) (a t : Nat) (c : Cond) (u : List (Nat × Int)) :
+    LockIdx (txUpdate s a t c u).1 := by
+  unfold txUpdate
+  dsimp only
+  repeat' split
+  all_goals first
+    | exact h
+    | exact lockIdx_congr (foldl_updateRow_locks a t u _ _).1 (foldl_updateRow_locks a t u _ _).2.1 h
+    | exact lockIdx_congr (foldl_updateRow_locks a t u _ _).1 (foldl_updateRow_locks a t u _ _).2.1 (lockIdx_lockAll h _ _ _)
+
+theorem lockIdx_txDelete {s : State} (h : LockIdx s) (a t : Nat) (c : Cond) : LockIdx (txDelete s a t c).1 := by
+  unfold txDelete
+  dsimp only
+  repeat' split
+  all_goals first
+    | exact h
+    | exact lockIdx_congr (foldl_deleteRow_locks a t _ _).1 (foldl_deleteRow_locks a t _ _).2.1 h
+    | exact lockIdx_congr (foldl_deleteRow_locks a t _ _).1 (foldl_deleteRow_locks a t _ _).2.1 (lockIdx_lockAll h _ _ _)
+
+theorem lockIdx_begin {s : State} (h : LockIdx s) : LockIdx (begin s).1 := lockIdx_congr rfl rfl h
+
+theorem lockIdx_finishAuto {p : State × Res} (h : LockIdx p.1) (a : Nat) : LockIdx (finishAuto p a).1 := by
+  unfold finishAuto
+  split
+  · exact lockIdx_rollback h a
+  · exact lockIdx_commit h a
+
+theorem lockIdx_step {s : State} (h : LockIdx s) (op : Op) : LockIdx (step s op).1 := by
+  cases op with
+  | begin => exact lockIdx_begin h
+  | commit a => exact lockIdx_commit h a
+  | rollback a => exact lockIdx_rollback h a
+  | txInsert a t v => exact lockIdx_txInsert h a t v
+  | txUpdate a t c u => exact lockIdx_txUpdate h a t c u
+  | txDelete a t c => exact lockIdx_txDelete h a t c
+  | insert t v =>
+    simp only [step]; unfold insert
+    repeat' split
+    all_goals first
+      | exact h
+      | exact lockIdx_finishAuto (lockIdx_txInsert (lockIdx_begin h) _ _ _) _
+  | update t c u =>
+    simp only [step]; unfold update
+    repeat' split
+    all_goals first
+      | exact h
+      | exact lockIdx_finishAuto (lockIdx_txUpdate (lockIdx_begin h) _ _ _ _) _
+  | delete t c =>
+    simp only [step]; unfold delete
+    repeat' split
+    all_goals first
+      | exact h
+      | exact lockIdx_finishAuto (lockIdx_txDelete (lockIdx_begin h) _ _ _) _
+  | createTable n => exact lockIdx_congr rfl rfl h
+  | createIndex t c =>
+    simp only [step]; unfold createIndex
+    repeat' split
+    all_goals first | exact h | exact lockIdx_congr rfl rfl h
+  | createBtree t c =>
+    simp only [step]; unfold createBtree
+    repeat' split
+    all_goals first | exact h | exact lockIdx_congr rfl rfl h
+  | dropIndex t c =>
+    simp only [step]; unfold dropIndex
+    repeat' split
+    all_goals first | exact h | exact lockIdx_congr rfl rfl h
+  | dropBtree t c =>
+    simp only [step]; unfold dropBtree
+    repeat' split
+    all_goals first | exact h | exact lockIdx_congr rfl rfl h
+  | tick d => exact lockIdx_congr rfl rfl h
+  | cleanupLocks => exact lockIdx_cleanupLocks h
+  | cleanupTxs =>
+    simp only [step, cleanupTxs]
+    exact lockIdx_congr rfl rfl (lockIdx_foldl_release h _)
+
+theorem lockIdx_run {s : State} (h : LockIdx s) (ops : List Op) : LockIdx (run s ops) := by
+  induction ops generalizing s with
+  | nil => exact h
+  | cons op rest ih => exact ih (lockIdx_step h op)
+
+/-- after `release`, no lock names the transaction and its key list is empty -/
+theorem release_clears {s : State} (h : LockIdx s) (tx : Nat) :
+    (∀ t i l, (release s tx).locks t i = some l → l.tx ≠ tx) ∧ (release s tx).txLocks tx = [] := by
+  refine ⟨?_, by simp [release]⟩
+  intro t i l hl he
+  obtain ⟨h1, h2⟩ := release_locks_some hl
+  exact h2 ⟨he, he ▸ h t i l h1⟩
+
+/-! ## shape of a successful update / delete -/
+
+theorem txUpdate_ok_form {s : State} {A t n : Nat} {cond : Cond} {upd : List (Nat × Int)} {T : Table}
+    (hT : s.tables t = some T) (hok : (txUpdate s A t cond upd).2 = .okN n) :
+    lockBlocked s A t (matching T cond) = false ∧
+    (txUpdate s A t cond upd).1 = (matching T cond).foldl (updateRow A t upd)
+      (if (matching T cond).isEmpty then s else lockAll s A t (matching T cond)) := by
+  unfold txUpdate at hok ⊢
+  cases hg : gate s A with
+  | some e => simp [hg] at hok
+  | none =>
+    simp only [hg, hT] at hok ⊢
+    by_cases hc : upd.any (fun p => decide (p.1 ≥ T.ncols)) = true
+    · simp [hc] at hok
+    · by_cases hb : lockBlocked s A t (matching T cond) = true
+      · simp [hc, hb] at hok
+      · simp [hc, hb]
+
+theorem txDelete_ok_form {s : State} {A t n : Nat} {cond : Cond} {T : Table}
+    (hT : s.tables t = some T) (hok : (txDelete s A t cond).2 = .okN n) :
+    lockBlocked s A t (matching T cond) = false ∧
+    (txDelete s A t cond).1 = (matching T cond).foldl (deleteRow A t)
+      (if (matching T cond).isEmpty then s else lockAll s A t (matching T cond)) := by
+  unfold txDelete at hok ⊢
+  cases hg : gate s A with
+  | some e => simp [hg] at hok
+  | none =>
+    simp only [hg, hT] at hok ⊢
+    by_cases hb : lockBlocked s A t (matching T cond) = true
+    · simp [hb] at hok
+    · simp [hb]
+
+theorem holder_lockAll (s : State) (A t i : Nat) (rows : List Nat) (hi : i ∈ rows) :
+    holder (lockAll s A t rows) t i = some A := by
+  simp [holder, lockAll, hi, Lock.expired]
+
+theorem holder_congr {s s' : State} (hl : s'.locks = s.locks) (hn : s'.now = s.now)
+    (ht : s'.lockTimeout = s.lockTimeout) (t i : Nat) : holder s' t i = holder s t i := by
+  simp only [holder, hl, hn, ht]
+
+/-! ## rollback touches only the rows named in the undo log -/
+
+def rowAt (s : State) (t i : Nat) : Option Row := (s.tables t).bind (·.rows[i]?)
+
+theorem applyUndoT_rows_other (T : Table) (u : Undo) (i : Nat) (h : i ≠ u.row) :
+    (applyUndoT T u).1.rows[i]? = T.rows[i]? := by
+  have hne : u.row ≠ i := fun e => h e.symm
+  cases u with
+  | inserted t r idx =>
+    simp only [Undo.row] at hne
+    simp only [applyUndoT, slabDelete]
+    split
+    · split
+      · rw [List.getElem?_set_ne hne]
+      · rfl
+    · rfl
+  | updated t r old chg =>
+    simp only [Undo.row] at hne
+    simp only [applyUndoT, restoreRow]
+    split
+    · split
+      · simp only [Option.getD_some]; rw [List.getElem?_set_ne hne]
+      · rfl
+    · rfl
+  | deleted t r old idx =>
+    simp only [Undo.row] at hne
+    simp only [applyUndoT, restoreDeletedRow]
+    split
+    · split
+      · simp only [Option.getD_some]; rw [List.getElem?_set_ne hne]
+      · rfl
+    · rfl
+
+theorem applyUndo_rowAt_other (acc : State × Nat) (u : Undo) (t i : Nat) (h : ¬(u.table = t ∧ u.row = i)) :
+    rowAt (applyUndo acc u).1 t i = rowAt acc.1 t i := by
+  unfold applyUndo
+  cases hT : acc.1.tables u.table with
+  | none => rfl
+  | some T =>
+    simp only [rowAt, setTable_tables]
+    by_cases ht : t = u.table
+    · subst ht
+      simp only [↓reduceIte, hT, Option.bind_some]
+      apply applyUndoT_rows_other
+      intro e; exact h ⟨rfl, e.symm⟩
+    · simp [ht]
+
+theorem foldl_applyUndo_rowAt_other (log : List Undo) (acc : State × Nat) (t i : Nat)
+    (h : ∀ u ∈ log, ¬(u.table = t ∧ u.row = i)) :
+    rowAt (log.foldl applyUndo acc).1 t i = rowAt acc.1 t i := by
+  induction log generalizing acc with
+  | nil => rfl
+  | cons u rest ih =>
+    simp only [List.foldl_cons]
+    rw [ih (applyUndo acc u) (fun v hv => h v (List.mem_cons_of_mem _ hv))]
+    exact applyUndo_rowAt_other acc u t i (h u List.mem_cons_self)
+
+/-! ## what undoing one entry does to its own row -/
+
+/-- effect of `apply_undo_entry` on the row it names (`slab.delete` / `restore_row` /
+    `restore_deleted_row`) -/
+def undoRow (ncols : Nat) (u : Undo) (r : Row) : Row :=
+  match u with
+  | .inserted _ _ _ => { r with alive := false }
+  | .updated _ _ old _ => if r.alive ∧ old.length = ncols then { r with vals := old } else r
+  | .deleted _ _ old _ => if (!r.alive) ∧ old.length = ncols then { alive := true, vals := old } else r
+
+theorem applyUndoT_ncols (T : Table) (u : Undo) : (applyUndoT T u).1.ncols = T.ncols := by
+  cases u <;> rfl
+
+theorem applyUndoT_row_self (T : Table) (u : Undo) (r : Row) (hr : T.rows[u.row]? = some r) :
+    (applyUndoT T u).1.rows[u.row]? = some (undoRow T.ncols u r) := by
+  have hlt : u.row < T.rows.length := by
+    rcases List.getElem?_eq_some_iff.1 hr with ⟨h, _⟩; exact h
+  cases u with
+  | inserted t i idx =>
+    simp only [Undo.row] at hr hlt
+    simp only [applyUndoT, slabDelete, Undo.row, hr, undoRow]
+    split
+    · simp [hlt]
+    · rename_i hd
+      rw [hr]
+      cases r with
+      | mk a v => simp at hd; subst hd; rfl
+  | updated t i old chg =>
+    simp only [Undo.row] at hr hlt
+    simp only [applyUndoT, restoreRow, Undo.row, hr, undoRow]
+    split
+    · simp [hlt]
+    · simp [hr]
+  | deleted t i old idx =>
+    simp only [Undo.row] at hr hlt
+    simp only [applyUndoT, restoreDeletedRow, Undo.row, hr, undoRow]
+    split
+    · simp [hlt]
+    · simp [hr]
+
+def ncolsAt (s : State) (t : Nat) : Option Nat := (s.tables t).map (·.ncols)
+
+theorem applyUndo_ncolsAt (acc : State × Nat) (u : Undo) (t : Nat) :
+    ncolsAt (applyUndo acc u).1 t = ncolsAt acc.1 t := by
+  unfold applyUndo
+  cases hT : acc.1.tables u.table with
+  | none => rfl
+  | some T =>
+    simp only [ncolsAt, setTable_tables]
+    by_cases ht : t = u.table
+    · subst ht; simp [hT, applyUndoT_ncols]
+    · simp [ht]
+
+theorem foldl_applyUndo_ncolsAt (log : List Undo) (acc : State × Nat) (t : Nat) :
+    ncolsAt (log.foldl applyUndo acc).1 t = ncolsAt acc.1 t := by
+  induction log generalizing acc with
+  | nil => rfl
+  | cons u rest ih => simp only [List.foldl_cons]; rw [ih, applyUndo_ncolsAt]
+
+theorem applyUndo_rowAt_self (acc : State × Nat) (u : Undo) (n : Nat) (r : Row)
+    (hn : ncolsAt acc.1 u.table = some n) (hr : rowAt acc.1 u.table u.row = some r) :
+    rowAt (applyUndo acc u).1 u.table u.row = some (undoRow n u r) := by
+  unfold applyUndo
+  cases hT : acc.1.tables u.table with
+  | none => simp [ncolsAt, hT] at hn
+  | some T =>
+    simp only [ncolsAt, hT, Option.map_some, Option.some.injEq] at hn
+    simp only [rowAt, hT, Option.bind_some] at hr
+    simp only [rowAt, setTable_tables, ↓reduceIte, Option.bind_some]
+    rw [applyUndoT_row_self T u r hr, hn]
+
 end Neumann.RelTx
